@@ -205,6 +205,22 @@ def alias_tree():
     return {"version": "", "nodes": nodes, "vectors": vectors}
 
 
+def implicit_trees():
+    """a command without a spec string that has an argument AND sub commands, with and without an Action of its own, next to its twin
+    with the explicit spec `[OPTIONS] X` (C16): four trees, the same listed vectors"""
+    ALL = g.Seq(g.Optional(g.Grp(["-f", "-n"], all_=True)), X)
+    out = []
+    for action in (True, False):
+        for spec in ("", "[OPTIONS] X"):
+            nodes = [node(["app"], "app", ALL, subs=[1, 2], action=action, spec=spec),
+                     node(["show", "sh"], "app show", g.Seq(g.Optional(X))),
+                     node(["build"], "app build", g.Seq(g.Optional(F)))]
+            vectors = [[], ["x"], ["show"], ["show", "show"], ["x", "show"], ["-f", "show"], ["-f", "x", "show", "y"], ["show", "x"], ["x", "y"], ["build", "build"],
+                       ["-f", "build", "build"], ["build"], ["x", "build", "-f"], ["sh", "sh"], ["-n=7", "x", "sh"], ["--", "show"], ["--", "show", "show"]]
+            out.append({"version": "", "nodes": nodes, "vectors": vectors})
+    return out
+
+
 def late_tree():
     """declaration-free commands; `late` is added to the application after earlier runs"""
     BARE = {"opts": [], "args": []}
